@@ -176,6 +176,13 @@ fn document(rng: &mut Rng, fmt: &str, n: usize, stats: &mut Stats) -> String {
         };
         let o = obj_text(rng, i, distinct, stats);
         match fmt {
+            "nq" if !distinct && rng.chance(1, 8) => {
+                // a graph that describes itself: the graph name is also the subject (in a fresh database it is then the
+                // very first term the dictionary sees)
+                stats.hit("nq_self_describing_graph");
+                let g = rng.below(3);
+                out.push_str(&format!("<http://e/g{}> {} {} <http://e/g{}> .\n", g, pt, o, g));
+            }
             "nq" if rng.chance(1, 3) => {
                 stats.hit("nq_named_graph");
                 out.push_str(&format!("{} {} {} <http://e/g{}> .\n", st, pt, o, rng.below(3)));
